@@ -84,7 +84,7 @@ func runInputs(c *hx.Ctx, ins []*Input, base int, par int) []*outcome {
 	// phase 1: members
 	mjobs := make([]*Job, len(ins))
 	for i, in := range ins {
-		mjobs[i] = &Job{Role: "member", Dir: dir(i, "member"), BookKey: in.BookKey, Blocks: in.Blocks, Repeat: in.Repeat, Track: in.Track}
+		mjobs[i] = &Job{Role: "member", Dir: dir(i, "member"), BookKey: in.BookKey, Blocks: in.Blocks, Repeat: in.Repeat, Track: in.Track, PreExec: in.PreExec}
 	}
 	mouts := runSharded(mjobs, par, nil)
 	// phase 2: syncers, for the inputs whose member produced a chain
@@ -572,6 +572,10 @@ func Run(c *hx.Ctx) {
 	for i := 0; i < c.N(1, 6); i++ {
 		ins = append(ins, newGen(c.Rng, c.Count).paramRestartChain())
 	}
+	// 6. EVM reads of memory the frame never wrote: polluters before a process restart / in pre-executions
+	for i := 0; i < c.N(1, 4); i++ {
+		ins = append(ins, newGen(c.Rng, c.Count).evmMemoryChain(false), newGen(c.Rng, c.Count).evmMemoryChain(true))
+	}
 	outs := runInputs(c, ins, 0, c.N(2, 4))
 	ms := int64(0)
 	for i, in := range ins {
@@ -609,6 +613,12 @@ func Run(c *hx.Ctx) {
 		}
 		if in.ProcRestart > 0 {
 			c.Count("input:syncer-restarts-as-new-process")
+		}
+		if len(in.PreExec) > 0 && o.member != nil {
+			c.Count("input:member-serves-pre-executions")
+			for k := 0; k < o.member.PreExecs; k++ {
+				c.Count("pre-executed-tx")
+			}
 		}
 		if o.member == nil {
 			continue
